@@ -610,3 +610,197 @@ pub fn c19_e2e(bin: &str, seed: u64, quick: bool) -> (E2eResult, u64, u64) {
     let d = distinct.into_inner().unwrap().len() as u64;
     (E2eResult { coverage: json!({"assignments": n, "outcome_classes": a.classes, "samples": a.samples}), violations: a.viol, evals: a.evals, inconclusive: a.inconclusive }, n, d)
 }
+
+// ------------------------------------------------------------------ crash / restart sessions (C05, C08, C09, C01 cross-checks)
+
+/// Real binary, real rpc.rs socket code, SIGKILL placed by the node right after it applied the
+/// effect of RPC number k (the plugin is then provably blocked on that reply). The node state
+/// (datastore, sendpays) survives; the HTLCs are re-offered to a fresh process; finally up to
+/// three fully funded probes must settle (C09). R05/R08a/R08b/R08c are evaluated on the node's
+/// own state after its own effects, R01a on every resolve answer.
+pub fn crash_sessions(bin: &str, seed: u64, thorough: bool) -> E2eResult {
+    let scripts: Vec<(&'static str, bool)> = vec![("complete", true), ("failed", false), ("pending", true), ("pending", false)];
+    let mut items: Vec<(usize, usize, usize)> = vec![];
+    for (si, _) in scripts.iter().enumerate() {
+        for n in if thorough { vec![1usize, 2] } else { vec![1usize] } {
+            for k in 0..14 {
+                items.push((si, n, k));
+            }
+        }
+    }
+    let acc = Mutex::new(Acc::new());
+    let next = std::sync::atomic::AtomicU64::new(0);
+    let kills_effective = std::sync::atomic::AtomicU64::new(0);
+    std::thread::scope(|sc| {
+        for _ in 0..crate::checks::threads().min(12) {
+            sc.spawn(|| loop {
+                let i = next.fetch_add(1, std::sync::atomic::Ordering::Relaxed) as usize;
+                if i >= items.len() {
+                    break;
+                }
+                let (si, n, k) = items[i];
+                let mut rng = Rng::new(mix(seed, 0xCA5 + i as u64));
+                let height = 3000u32;
+                let opts = json!({"trampoline-mpp-timeout": 5});
+                let inv = new_invoice(&mut rng, Some(1_000_000), Hints::None);
+                let hx = hex::encode(inv.hash);
+                let need = 1_005_000u64;
+                let amounts: Vec<u64> = if n == 1 { vec![need] } else { vec![need / 2, need - need / 2] };
+                let mut s = match Session::start(bin, &opts, false, height, None) {
+                    Ok((Some(s), _)) => s,
+                    _ => {
+                        acc.lock().unwrap().inconclusive.push("plugin did not start".into());
+                        continue;
+                    }
+                };
+                s.preimages.insert(hx.clone(), inv.preimage);
+                s.hashes = vec![hx.clone()];
+                s.pay_script = Some(scripts[si]);
+                s.kill_at_rpc = Some(k);
+                let mut ids: Vec<String> = vec![];
+                for (j, am) in amounts.iter().enumerate() {
+                    let id = format!("c{j}");
+                    s.send_doc(&hook(&id, tramp_request(&inv, j as u64, *am, need, height + 1100, height)), 0);
+                    ids.push(id);
+                }
+                let idc = ids.clone();
+                s.pump_until(move |s| s.killed || s.out_eof || idc.iter().all(|id| s.reply(id).is_some()), Duration::from_secs(12));
+                // the lifecycle's bookkeeping (mark_succeeded / mark_failed) comes after the answers:
+                // keep serving until the RPC stream has been quiet for a while, so kill points there are reached
+                let mut last = s.rpc_count;
+                for _ in 0..10 {
+                    if s.killed || s.out_eof {
+                        break;
+                    }
+                    s.pump_for(Duration::from_millis(60));
+                    if s.rpc_count == last {
+                        break;
+                    }
+                    last = s.rpc_count;
+                }
+                let mut answered: BTreeMap<String, Value> = BTreeMap::new();
+                for id in &ids {
+                    if let Some(r) = s.reply(id) {
+                        answered.insert(id.clone(), r.clone());
+                    }
+                }
+                let killed = s.killed;
+                let mut node = s.node.clone();
+                let mut viol = std::mem::take(&mut s.node_violations);
+                s.finish();
+                let ctx = format!("script={:?} htlcs={n} kill_at_rpc={k}", scripts[si]);
+                let mut second: Option<Session> = None;
+                if killed {
+                    kills_effective.fetch_add(1, std::sync::atomic::Ordering::Relaxed);
+                    node.crash();
+                    let mut s2 = match Session::start(bin, &opts, false, height, None) {
+                        Ok((Some(s2), _)) => s2,
+                        _ => {
+                            acc.lock().unwrap().inconclusive.push("plugin did not restart".into());
+                            continue;
+                        }
+                    };
+                    s2.node = node.clone();
+                    s2.preimages.insert(hx.clone(), inv.preimage);
+                    s2.hashes = vec![hx.clone()];
+                    s2.pay_script = Some(scripts[si]);
+                    // re-offer what the node had not seen answered
+                    let mut re: Vec<String> = vec![];
+                    for (j, am) in amounts.iter().enumerate() {
+                        let id = format!("c{j}");
+                        if !answered.contains_key(&id) {
+                            let rid = format!("r{j}");
+                            s2.send_doc(&hook(&rid, tramp_request(&inv, j as u64, *am, need, height + 1100, height)), 0);
+                            re.push(rid);
+                        }
+                    }
+                    let rc = re.clone();
+                    let ok = s2.pump_until(move |s| s.out_eof || rc.iter().all(|id| s.reply(id).is_some()), Duration::from_secs(20));
+                    for id in &re {
+                        if let Some(r) = s2.reply(id) {
+                            answered.insert(id.clone(), r.clone());
+                        }
+                    }
+                    if !ok {
+                        acc.lock().unwrap().v("R06c|e2e-replayed-htlc-unanswered", format!("{ctx}: replayed HTLCs {re:?} not all answered within 20 s (mpp 5 s)"));
+                    }
+                    viol.extend(std::mem::take(&mut s2.node_violations));
+                    second = Some(s2);
+                }
+                // R01a on every resolve
+                {
+                    let mut g = acc.lock().unwrap();
+                    for (id, r) in &answered {
+                        g.e("R01a-e2e", 1);
+                        if let Some((kind, res)) = result_of(r) {
+                            if kind == "resolve" {
+                                let key = res["payment_key"].as_str().and_then(|x| hex::decode(x).ok()).unwrap_or_default();
+                                if sha256_of(&key) != inv.hash {
+                                    g.v("R01a|e2e-key-not-preimage", format!("{ctx}: {id} resolved with a key that does not hash to the HTLC's hash"));
+                                }
+                            }
+                        }
+                    }
+                }
+                // C09 probes (same process as the last lifetime; the SIM covers the restart variant)
+                let mut ps = match second {
+                    Some(s2) => s2,
+                    None => match Session::start(bin, &opts, false, height, None) {
+                        Ok((Some(mut s3), _)) => {
+                            s3.node = node.clone();
+                            s3.preimages.insert(hx.clone(), inv.preimage);
+                            s3.hashes = vec![hx.clone()];
+                            s3
+                        }
+                        _ => {
+                            acc.lock().unwrap().inconclusive.push("plugin did not start for probes".into());
+                            continue;
+                        }
+                    },
+                };
+                ps.pay_script = Some(("complete", true));
+                let mut settled = false;
+                let mut probe_answers = vec![];
+                for p in 0..3 {
+                    let id = format!("p{p}");
+                    ps.send_doc(&hook(&id, tramp_request(&inv, 50 + p, need, need, height + 1100, height)), 0);
+                    let idc = id.clone();
+                    ps.pump_until(move |s| s.out_eof || s.reply(&idc).is_some(), Duration::from_secs(15));
+                    let r = ps.reply(&id).cloned();
+                    let kind = r.as_ref().and_then(result_of).map(|x| x.0);
+                    probe_answers.push(format!("{:?}", r.as_ref().map(|x| x["result"].to_string())));
+                    if kind.as_deref() == Some("resolve") {
+                        settled = true;
+                        break;
+                    }
+                }
+                viol.extend(std::mem::take(&mut ps.node_violations));
+                let fin = ps.finish();
+                let mut g = acc.lock().unwrap();
+                g.e("R09-e2e", 1);
+                g.e("R05-e2e", 1);
+                g.e("R08a-e2e", 1);
+                g.class(format!("{:?}|killed={killed}", scripts[si]));
+                if !settled {
+                    g.v("R09|e2e-wedged", format!("{ctx}: three probes after the history did not settle: {probe_answers:?}; record reads {}", rec_of(&node, &hx)));
+                }
+                for (sig, d) in viol {
+                    g.v(&sig, format!("{ctx}: {d}"));
+                }
+                if fin.stderr.contains("panicked") {
+                    g.v("R06b|e2e-panic", format!("{ctx}: {}", fin.stderr.chars().take(300).collect::<String>()));
+                }
+                if g.samples.len() < 3 {
+                    g.samples.push(json!({"scenario": ctx, "killed": killed, "answers": answered.iter().map(|(k, v)| format!("{k}: {}", v["result"])).collect::<Vec<_>>(), "probes": probe_answers}));
+                }
+            });
+        }
+    });
+    let a = acc.into_inner().unwrap();
+    E2eResult {
+        coverage: json!({"sessions": items.len(), "sessions_in_which_the_kill_point_was_reached": kills_effective.load(std::sync::atomic::Ordering::Relaxed), "classes": a.classes, "samples": a.samples}),
+        violations: a.viol,
+        evals: a.evals,
+        inconclusive: a.inconclusive,
+    }
+}
